@@ -1,30 +1,72 @@
 import Flodym.Driver.Parse
+import Flodym.Validators
 /-!
 # Driver commands for the array tier (streams `array-ops`, `index`, `dims`, `np-semantics`)
 -/
 namespace Flodym.Driver
 open Flodym Flodym.FArr Flodym.DimSet
 
+/-- a numpy view: which buffer, its own shape, and where each of its entries lives in the buffer -/
+structure View where
+  buf : Nat
+  shape : List Nat
+  src : List Nat → List Nat
+
 inductive Obj where
   | dim (d : Dim)
   | dset (ds : DimSet)
-  | arr (x : FArr Rat)
+  | harr (dims : DimSet) (v : View)      -- a FlodymArray: its own dimension set, values = a view
   | nd (v : ND Rat)
 
+/-- Tier 3 store: objects by handle, numpy buffers by identity. Results of operations get a fresh
+buffer; the only flodym operations that return a *view* of their source are `sum_to`/`sum_over`
+when nothing is summed (numpy's einsum returns a view for a pure transposition). -/
 structure Store where
   objs : List (Nat × Obj) := []
+  bufs : List (Nat × ND Rat) := []
+  nextBuf : Nat := 0
 
 def Store.get? (s : Store) (h : Nat) : Option Obj := (s.objs.find? (·.1 == h)).map (·.2)
-def Store.put (s : Store) (h : Nat) (o : Obj) : Store := { objs := (h, o) :: s.objs.filter (·.1 != h) }
+def Store.put (s : Store) (h : Nat) (o : Obj) : Store := { s with objs := (h, o) :: s.objs.filter (·.1 != h) }
+def Store.buf (s : Store) (b : Nat) : ND Rat := ((s.bufs.find? (·.1 == b)).map (·.2)).getD (ND.full [] 0)
+
+def Store.readView (s : Store) (v : View) : ND Rat :=
+  let base := s.buf v.buf
+  { shape := v.shape, get := fun idx => base.get (v.src idx) }
+
+/-- allocate a fresh buffer holding `a` -/
+def Store.alloc (s : Store) (a : ND Rat) : Store × View :=
+  let a := a.memo 0
+  ({ s with bufs := (s.nextBuf, a) :: s.bufs, nextBuf := s.nextBuf + 1 },
+   { buf := s.nextBuf, shape := a.shape, src := id })
+
+/-- write new contents through a view into its buffer (in place): every array sharing the buffer
+sees the change -/
+def Store.writeView (s : Store) (v : View) (nv : ND Rat) : Store :=
+  let base := s.buf v.buf
+  let idxs := allIdx v.shape
+  let nb : ND Rat := { shape := base.shape,
+                        get := fun b => match idxs.find? (fun i => v.src i == b) with
+                          | some i => nv.get i
+                          | none => base.get b }
+  { s with bufs := (v.buf, nb.memo 0) :: s.bufs.filter (·.1 != v.buf) }
 
 def Store.dim? (s : Store) (t : String) : Option Dim := do
   match ← s.get? (← parseHandle? t) with | .dim d => some d | _ => none
 def Store.dset? (s : Store) (t : String) : Option DimSet := do
   match ← s.get? (← parseHandle? t) with | .dset d => some d | _ => none
+def Store.harr? (s : Store) (t : String) : Option (DimSet × View) := do
+  match ← s.get? (← parseHandle? t) with | .harr d v => some (d, v) | _ => none
 def Store.arr? (s : Store) (t : String) : Option (FArr Rat) := do
-  match ← s.get? (← parseHandle? t) with | .arr x => some x | _ => none
+  let (d, v) ← s.harr? t
+  some ⟨d, s.readView v⟩
 def Store.nd? (s : Store) (t : String) : Option (ND Rat) := do
   match ← s.get? (← parseHandle? t) with | .nd x => some x | _ => none
+
+/-- store an array under handle `hn` with a fresh buffer -/
+def Store.putFresh (s : Store) (hn : Nat) (x : FArr Rat) : Store :=
+  let (s1, v) := s.alloc x.values
+  s1.put hn (.harr x.dims v)
 
 def memoArr (x : FArr Rat) : FArr Rat := ⟨x.dims, x.values.memo 0⟩
 
@@ -85,8 +127,24 @@ def ratPow (a b : Rat) : Rat := if b.den = 1 ∧ 0 ≤ b.num then a ^ b.num.toNa
 /-- store a freshly computed array under handle `h` and print it -/
 def putArr (s : Store) (h : String) (r : Option (FArr Rat)) : Store × String :=
   match parseHandle? h, r with
-  | some hn, some x => let x := memoArr x; (s.put hn (.arr x), "ok " ++ showArr x)
+  | some hn, some x => let x := memoArr x; (s.putFresh hn x, "ok " ++ showArr x)
   | _, _ => (s, "err")
+
+/-- result of `sum_to` / `sum_over`: when nothing is summed numpy's einsum returns a transposed
+*view* of the source's buffer; otherwise a fresh array -/
+def putReduced (s : Store) (h x : String) (r : Option (FArr Rat)) : Store × String :=
+  match parseHandle? h, r, s.harr? x with
+  | some hn, some res, some (dx, vx) =>
+    let res := memoArr res
+    -- (a 0-d einsum result is a numpy scalar, re-wrapped by the constructor: no view)
+    if res.dims.length == dx.length && dx.length != 0 then
+      let lx := DimSet.letters dx
+      let lr := DimSet.letters res.dims
+      let view : View := { buf := vx.buf, shape := res.values.shape,
+                           src := fun idx => vx.src (lx.map (bind lr idx Env.zero)) }
+      (s.put hn (.harr res.dims view), "ok " ++ showArr res)
+    else (s.putFresh hn res, "ok " ++ showArr res)
+  | _, _, _ => (s, "err")
 
 def putDset (s : Store) (h : String) (r : Option DimSet) : Store × String :=
   match parseHandle? h, r with
@@ -97,10 +155,10 @@ def optStr {β : Type} (r : Option β) (f : β → String) : String :=
   match r with | some x => "ok " ++ f x | none => "err"
 
 def dumpAll (s : Store) : String :=
-  let objs := s.objs.reverse.filter (fun o => match o.2 with | .arr _ => true | .dset _ => true | _ => false)
+  let objs := s.objs.reverse.filter (fun o => match o.2 with | .harr _ _ => true | .dset _ => true | _ => false)
   let sorted := objs.toArray.qsort (fun a b => a.1 < b.1) |>.toList
-  "; ".intercalate (sorted.map fun (h, o) => match o with
-    | .arr x => s!"${h}={showArr x}"
+  " ; ".intercalate (sorted.map fun (h, o) => match o with
+    | .harr d v => s!"${h}={showArr (memoArr ⟨d, s.readView v⟩)}"
     | .dset d => s!"${h}={showDimSet d}"
     | _ => "")
 
@@ -123,8 +181,8 @@ def arrayStep (s : Store) (toks : List String) : Option (Store × String) :=
     some (putArr s h (do some (FArr.full (← s.dset? ds) (← parseRat? c))))
   | ["scalar", h, c] => some (putArr s h ((parseRat? c).map FArr.scalar))
   | ["copy", h, x] => some (putArr s h (s.arr? x))
-  | "sumto" :: h :: x :: ks => some (putArr s h (do (← s.arr? x).sumTo? (← ks.mapM (parseDimKey? s))))
-  | "sumover" :: h :: x :: ks => some (putArr s h (do (← s.arr? x).sumOver? (← ks.mapM (parseDimKey? s))))
+  | "sumto" :: h :: x :: ks => some (putReduced s h x (do (← s.arr? x).sumTo? (← ks.mapM (parseDimKey? s))))
+  | "sumover" :: h :: x :: ks => some (putReduced s h x (do (← s.arr? x).sumOver? (← ks.mapM (parseDimKey? s))))
   | [op, h, x, y] =>
     let bin (f : FArr Rat → Operand Rat → Option (FArr Rat)) :=
       some (putArr s h (do f (← s.arr? x) (← parseOperand? s y)))
@@ -136,17 +194,35 @@ def arrayStep (s : Store) (toks : List String) : Option (Store × String) :=
     | "min" => bin (addLike? min)
     | "max" => bin (addLike? max)
     | "mul" => bin mul?
-    | "div" => bin div?
+    | "div" =>
+      -- numpy's inf/nan for a zero divisor is not modelled: both sides report `divzero`
+      let zero := match parseOperand? s y with
+        | some (.num c) => c == 0
+        | some (.arr a) => a.values.toList.any (· == 0)
+        | none => false
+      if zero = true then some (s, "divzero") else bin div?
     | "pow" => bin (pow? ratPow)
     | "radd" => rnum radd?
     | "rsub" => rnum rsub?
     | "rmul" => rnum rmul?
-    | "rdiv" => rnum rdiv?
+    | "rdiv" =>
+      if ((s.arr? x).map fun a => a.values.toList.any (· == 0)).getD false then some (s, "divzero")
+      else rnum rdiv?
     | "castto" => some (putArr s h (do (← s.arr? x).castTo? (← s.dset? y)))
     | "cumsum" => some (putArr s h (do
         let l ← match y.toList with | [c] => some c | _ => none
         (← s.arr? x).cumsum? l))
-    | "shares" => some (putArr s h (do (← s.arr? x).getSharesOver? (if y == "-" then [] else y.toList)))
+    | "shares" =>
+      let ls := if y == "-" then [] else y.toList
+      let zero := match s.arr? x with
+        | some a =>
+          if ls.all (a.letters.contains ·) then
+            if a.letters.all (ls.contains ·) then a.sumValues == 0
+            else ((a.sumOver? (ls.map fun l => .str l.toString)).map fun t => t.values.toList.any (· == 0)).getD false
+          else false
+        | none => false
+      if zero = true then some (s, "divzero") else
+      some (putArr s h (do (← s.arr? x).getSharesOver? ls))
     | "getitem" => some (putArr s h (do (← s.arr? x).getitem? (← parseKey? s y)))
     | _ => none
   | [op, h, x] =>
@@ -162,16 +238,25 @@ def arrayStep (s : Store) (toks : List String) : Option (Store × String) :=
 def arrayStep2 (s : Store) (toks : List String) : Option (Store × String) :=
   match toks with
   | ["setitem", x, k, rhs] =>
-    some (match parseHandle? x, (do (← s.arr? x).setitem? (← parseKey? s k) (← parseRhs? s rhs)) with
-      | some hn, some nx => let nx := memoArr nx; (s.put hn (.arr nx), "ok " ++ showArr nx)
-      | _, _ => (s, "err"))
+    some (match parseHandle? x, s.harr? x, parseKey? s k, parseRhs? s rhs with
+      | some hn, some (d, v), some key, some r =>
+        match (⟨d, s.readView v⟩ : FArr Rat).setitem? key r with
+        | some nx =>
+          let nx := memoArr nx
+          -- `x[...] = ndarray` goes through `set_values`, which rebinds `values` to the (copied)
+          -- array; every other assignment writes into the existing buffer
+          let rebinding := match key, r with | .ellipsis, .nd _ => true | _, _ => false
+          if rebinding then (s.putFresh hn nx, "ok " ++ showArr nx)
+          else (s.writeView v nx.values, "ok " ++ showArr nx)
+        | none => (s, "err")
+      | _, _, _, _ => (s, "err"))
   | ["setvalues", x, rhs] =>
     -- `x.set_values(ndarray)`: exact shape only
     some (match parseHandle? x, (do
         let a ← s.arr? x
         let v ← parseNDLit? rhs
         FArr.mk? a.dims v) with
-      | some hn, some nx => (s.put hn (.arr (memoArr nx)), "ok " ++ showArr nx)
+      | some hn, some nx => (s.putFresh hn (memoArr nx), "ok " ++ showArr nx)
       | _, _ => (s, "err"))
   | ["split", x, k] =>
     some (s, optStr (do (← s.arr? x).split? k) fun ps =>
@@ -199,6 +284,38 @@ def arrayStep2 (s : Store) (toks : List String) : Option (Store × String) :=
           (s.put hn (.nd a'), "ok " ++ showND a')
         else (s, "err")
       | _, _, _, _ => (s, "err"))
+  | ["probe_write", x, pos, c] =>
+    -- write into the values of one array (`x.values.flat[pos] = c`): only that array changes
+    some (match s.harr? x, pos.toNat?, parseRat? c with
+      | some (d, v), some p, some q =>
+        let cur := s.readView v
+        let flat := cur.toList.toArray
+        if p < flat.size then
+          let nv := ND.ofFlat cur.shape (flat.set! p q) 0
+          (s.writeView v nv, "ok " ++ showArr ⟨d, nv⟩)
+        else (s, "err")
+      | _, _, _ => (s, "err"))
+  | ["probe_dims", x, d] =>
+    -- edit the dimension set of one array in place (`x.dims.append(d, inplace=True)`)
+    some (match parseHandle? x, s.harr? x, s.dim? d with
+      | some hn, some (dx, v), some dim =>
+        match appendInplace? dx dim with
+        | some ds => (s.put hn (.harr ds v), "ok " ++ showArr (memoArr ⟨ds, s.readView v⟩))
+        | none => (s, "err")
+      | _, _, _ => (s, "err"))
+  | "mkstock" :: ds :: tl :: rest =>
+    -- Stock(dims, time_letter, [inflow/outflow/stock arrays], [lifetime model dims]): accepted or refused
+    some (s, match s.dset? ds, tl.toList with
+      | some dims, [t] =>
+        let arrs := rest.filter (fun r => strTake r 2 == "a:") |>.map (fun r => (s.arr? (strDrop r 2)).map (·.dims))
+        let lms := rest.filter (fun r => strTake r 2 == "l:") |>.map (fun r => s.dset? (strDrop r 2))
+        if arrs.any Option.isNone || lms.any Option.isNone then "err" else
+        if stockAccepts dims t (arrs.filterMap id) (lms.filterMap id) then "ok" else "err"
+      | _, _ => "err")
+  | ["mklt", ds, tl, ia] =>
+    some (s, match s.dset? ds, tl.toList with
+      | some dims, [t] => if lifetimeAccepts dims t ia then "ok" else "err"
+      | _, _ => "err")
   | ["dump", x] => some (s, optStr (s.arr? x) showArr)
   | ["dumpall"] => some (s, "ok " ++ dumpAll s)
   | _ => none
